@@ -325,8 +325,13 @@ def restore_requests(log, under_lock):
     failed_loaders = {}
     for e in log:
         k = e[0]
-        if k in ('park', 'job_end') and e[1] in pending_test:
+        # (old code) `if not digests:` runs after the loader is let go from the after-release park of the remove section
+        # and before it reaches its next instrumented point
+        if ((k == 'park' and e[2] != 'rel') or k == 'job_end') and e[1] in pending_test:
             d, f = pending_test.pop(e[1])
+            fevs.append(['test', d, f])
+        elif k == 'lock_acq' and e[3] in pending_test:
+            d, f = pending_test.pop(e[3])
             fevs.append(['test', d, f])
         if k == 'call_end' and e[2] == 'download_stream' and e[4] is None and e[3] in lab_to_loader:
             fevs.append(['downloaded', ljobs[lab_to_loader[e[3]]]])
@@ -385,7 +390,7 @@ def make_strategy(spec, r):
     if kind == 'pct':
         return S.PCT(r, depth=spec[1], est_steps=spec[2])
     if kind == 'listed':
-        return S.Listed({int(k): v for k, v in spec[1].items()}, sticky=spec[2])
+        return S.Listed({int(k): v for k, v in spec[1].items()}, mode=spec[2])
     raise ValueError(kind)
 
 
@@ -526,6 +531,8 @@ def run_restore_schedule(prep, spec, r, flags, sc, tag, fail=None, quick=True, p
     else:
         if res['outcome'] == 'ok' and ctl.faults_injected:
             V.append(('restore:failure-swallowed', 'a download failed but restore reported success'))
+        elif res['outcome'] == 'error' and isinstance(res['error'], KeyError) and res['error'].args and res['error'].args[0] in paths:
+            V.append(('restore:double-finalise', f'restore raised KeyError({res["error"].args[0]!r}): two loaders both saw the pending set of the file empty and both finalised it'))
         elif res['outcome'] == 'error' and not isinstance(res['error'], S.InjectedFault):
             V.append((f'restore:spurious-exception:{exc_name(res["error"])}', f'restore raised {res["error"]!r} instead of the injected transfer error'))
     if not res['hang']:
@@ -572,7 +579,7 @@ def do_item(arg):
                 budget = item['budget']
                 runs = 0
                 while runs < budget:
-                    spec = ('listed', {str(i): c - 1 for i, c in enumerate(choices) if c > 0}, False)
+                    spec = ('listed', {str(i): c - 1 for i, c in enumerate(choices) if c > 0}, 'key')
                     res = run_snapshot_schedule(prep, spec, r, flags, quick=quick)
                     runs += 1
                     res['summary']['choices'] = list(choices)
@@ -589,24 +596,26 @@ def do_item(arg):
                         break
                     choices = nxt
             elif kind == 'restore-preempt':
+                # every single (bound 2: pairs of) deviation(s) from two base schedules: non-pre-emptive and maximally interleaved
                 bound = item['bound']
-                base = run_restore_schedule(prep, ('listed', {}, True), r, flags, sc, 'b', quick=quick)
-                results.append(base)
-                shape = base['shape'] or []
-                pts = [(i, a) for i, (nc, d) in enumerate(shape) for a in range(nc - 1)]
                 rr = rng_for(seed, 'C09-pre', item['id'])
-                if len(pts) > item['budget']:
-                    pts = rr.sample(pts, item['budget'])
-                second = []
-                for (i, a) in pts:
-                    res = run_restore_schedule(prep, ('listed', {str(i): a}, True), r, flags, sc, 'b', quick=quick)
-                    results.append(res)
-                    if bound >= 2:
-                        sh2 = res['shape'] or []
-                        second += [((i, a), (j, b)) for j, (nc, d) in enumerate(sh2) if j > i for b in range(nc - 1)]
-                if bound >= 2 and second:
-                    for (i, a), (j, b) in rr.sample(second, min(len(second), item.get('budget2', 0))):
-                        results.append(run_restore_schedule(prep, ('listed', {str(i): a, str(j): b}, True), r, flags, sc, 'b', quick=quick))
+                for mode in item.get('modes', ['sticky', 'fifo']):
+                    base = run_restore_schedule(prep, ('listed', {}, mode), r, flags, sc, 'b', quick=quick)
+                    results.append(base)
+                    shape = base['shape'] or []
+                    pts = [(i, a) for i, (nc, d) in enumerate(shape) for a in range(nc - 1)]
+                    if len(pts) > item['budget']:
+                        pts = rr.sample(pts, item['budget'])
+                    second = []
+                    for (i, a) in pts:
+                        res = run_restore_schedule(prep, ('listed', {str(i): a}, mode), r, flags, sc, 'b', quick=quick)
+                        results.append(res)
+                        if bound >= 2:
+                            sh2 = res['shape'] or []
+                            second += [((i, a), (j, b)) for j, (nc, d) in enumerate(sh2) if j > i for b in range(nc - 1)]
+                    if bound >= 2 and second:
+                        for (i, a), (j, b) in rr.sample(second, min(len(second), item.get('budget2', 0))):
+                            results.append(run_restore_schedule(prep, ('listed', {str(i): a, str(j): b}, mode), r, flags, sc, 'b', quick=quick))
             elif kind == 'random':
                 est = 20 + 12 * prep.total
                 for s_i, spec in enumerate(item['strategies']):
